@@ -379,15 +379,16 @@ class Zeroconf(QuietLogger):
         # must not be sent after the announcement of the new one: drop what the
         # service's own names own in the queues unless it is still current
         names: Set[str] = {info.key}
+        current: Set[DNSRecord] = {info.dns_service(), info.dns_text()}
+        current.update(info.get_address_and_nsec_records())
         for described in (previous, info):
             if described is None or described.server_key is None:
                 continue
-            # address records are left alone when another service uses the host name
-            users = self.registry.async_get_infos_server(described.server_key)
-            if all(user.key == info.key for user in users):
-                names.add(described.server_key)
-        current: Set[DNSRecord] = {info.dns_service(), info.dns_text()}
-        current.update(info.get_address_and_nsec_records())
+            # what the host names own stays due as far as a registered
+            # service (this one or another) still has that record
+            names.add(described.server_key)
+            for user in self.registry.async_get_infos_server(described.server_key):
+                current.update(user.get_address_and_nsec_records())
         self.out_queue.async_remove_superseded(names, current)
         self.out_delay_queue.async_remove_superseded(names, current)
         return asyncio.ensure_future(self._async_broadcast_service(info, _REGISTER_TIME, None))
